@@ -69,7 +69,7 @@ func checkOverlap(ctx *Ctx, r *Report, fn *ssa.Function, key string) {
 		r.undecided("O1", key, fn.Pos(), "not comparison-only: "+shortKey(t.Key(), 160))
 		return
 	}
-	a, b := fn.Params[0].Name(), fn.Params[1].Name()
+	a, b := paramName(fn, 0), paramName(fn, 1)
 	names := []string{a + "[0]", a + "[1]", b + "[0]", b + "[1]"}
 	bad, n := 0, 0
 	first := ""
@@ -139,7 +139,7 @@ func checkMinMaxDist2(ctx *Ctx, r *Report, fn *ssa.Function, dim int, key string
 		r.undecided("O2", key, fn.Pos(), "interval components not scalar")
 		return
 	}
-	recv, p := fn.Params[0].Name(), fn.Params[1].Name()
+	recv, p := paramName(fn, 0), paramName(fn, 1)
 	axes := []string{"X", "Y", "Z"}[:dim]
 	lo := func(k int) *Term { return Sub(A(recv+".Min."+axes[k]), A(p+"."+axes[k])) }
 	hi := func(k int) *Term { return Sub(A(recv+".Max."+axes[k]), A(p+"."+axes[k])) }
